@@ -529,7 +529,7 @@ func c13QuestionGuarded(c *Ctx, rule string) {
 			}
 			switch bo.Op {
 			case token.EQL:
-				return (truth && k >= 1) || (!truth && false)
+				return (truth && k >= 1) || (!truth && k == 0)
 			case token.NEQ:
 				return (truth && k == 0) || (!truth && k >= 1)
 			case token.GTR:
